@@ -51,11 +51,11 @@ public:
   const Iterator& begin() const {return _begin;}
   const Iterator& end() const {return _end;}
 
-  const T& front() const {return _begin.item->value;}
-  const T& back() const {return _end.item->prev->value;}
+  const T& front() const {return *(const T*)(_begin.item + 1);}
+  const T& back() const {return *(const T*)(_end.item->prev + 1);}
 
-  T& front() { return _begin.item->value; }
-  T& back() { return _end.item->prev->value; }
+  T& front() {return *(T*)(_begin.item + 1);}
+  T& back() {return *(T*)(_end.item->prev + 1);}
 
   Iterator removeFront() {return remove(_begin);}
   Iterator removeBack() {return remove(_end.item->prev);}
